@@ -13,7 +13,7 @@ import (
 // (I = Add_input, O = Add_output, Pd = Add_processor(domain d), i<k>/o<k> =
 // Del_input(k)/Del_output(k)). doms: "NM" pairs, e.g. "112102".
 // edit: 0 Del_input, 1 Del_output, 2 Add_input, 3 Add_output, 4 Add_processor,
-// 5 Del_bond, 6 Add_bond. inrange: 1 = argument inside its domain, 0 = outside.
+// 5 Del_bond, 6 Add_bond, 7 Attach_benchmark_core. inrange: 1 = argument inside its domain, 0 = outside.
 
 func zzC10Build(hist string, doms string) *Bondmachine {
 	bm := new(Bondmachine)
@@ -330,6 +330,35 @@ func zzC10(hist string, doms string, edit int, inrange int, a int, b int) {
 		got := bm.List_bonds()
 		s, ok := got[a]
 		zzAssert("listed", ok && s == oname+","+iname)
+	case 7: // Attach_benchmark_core between the a-th and the b-th internal output
+		if a >= len(bm.Internal_outputs) || b >= len(bm.Internal_outputs) {
+			zzReach("end")
+			return
+		}
+		e0 := bm.Internal_outputs[a].String()
+		e1 := bm.Internal_outputs[b].String()
+		ndom, nproc := len(bm.Domains), len(bm.Processors)
+		err := bm.Attach_benchmark_core([]string{e0, e1})
+		zzAssert("noerr", err == nil)
+		zzAssert("wf", zzC10WF(bm))
+		zzAssert("count", len(bm.Domains) == ndom+1 && len(bm.Processors) == nproc+1 && bm.Processors[nproc] == ndom &&
+			bm.Outputs == pre.outputs+1 && bm.Inputs == pre.inputs)
+		// every earlier bond is kept
+		for i, in := range pre.in {
+			got, linked := zzBondOf(bm.Internal_inputs, bm.Internal_outputs, bm.Links, in)
+			if pre.links[i] == -1 {
+				zzAssert("stay-unlinked", !linked)
+			} else {
+				zzAssert("bond-kept", linked && got == pre.out[pre.links[i]])
+			}
+		}
+		// the core (the NEW processor) reads the two endpoints and drives the new output
+		g0, l0 := zzBondOf(bm.Internal_inputs, bm.Internal_outputs, bm.Links, Bond{CPINPUT, nproc, 0})
+		g1, l1 := zzBondOf(bm.Internal_inputs, bm.Internal_outputs, bm.Links, Bond{CPINPUT, nproc, 1})
+		go0, lo := zzBondOf(bm.Internal_inputs, bm.Internal_outputs, bm.Links, Bond{BMOUTPUT, pre.outputs, 0})
+		zzAssert("core-input-0-bonded", l0 && g0 == pre.out[a])
+		zzAssert("core-input-1-bonded", l1 && g1 == pre.out[b])
+		zzAssert("core-output-bonded", lo && go0 == Bond{CPOUTPUT, nproc, 0})
 	}
 	zzReach("end")
 }
